@@ -199,140 +199,145 @@ def _run_history(case, twin):
             return sess.no_autoflush
         return contextlib.nullcontext()
 
-    with warnings.catch_warnings():
-        warnings.simplefilter("ignore")
-        for op in ops:
-            kind = op[0]
-            try:
-                if kind == "add":
-                    k = (op[1], op[2])
-                    if ident(k) is not None or k in pend:
-                        outs.append("-")
-                        continue
-                    T = w.cls[k[0]]
-                    o = T(id=k[1], a=op[3]) if k[0] == 0 else T(id=k[1], a=op[3], pid=op[4])
-                    sess.add(o)
-                    keep.append(o)
-                    pend[k] = o
-                    if k in flushed:
-                        poisoned[0] = True
-                    else:
-                        flushed[k] = [op[3], op[4] if k[0] == 1 else None]
-                    outs.append("d")
-                elif kind in ("seta", "setp"):
-                    k = (op[1], op[2])
-                    if kind == "setp" and k[0] != 1:
-                        outs.append("-")
-                        continue
-                    o = ident(k)
-                    if o is not None and o in sess.deleted:
-                        outs.append("-")
-                        continue
-                    if o is None:
-                        o = pend.get(k)
-                    if o is None:
-                        outs.append("-")
-                        continue
-                    if kind == "seta":
-                        o.a = op[3]
-                        if not (poisoned[0] and k in pend):
-                            flushed[k][0] = op[3]
-                    else:
-                        o.pid = op[3]
-                        if not (poisoned[0] and k in pend):
-                            flushed[k][1] = op[3]
-                    outs.append("d")
-                elif kind == "del":
-                    k = (op[1], op[2])
-                    o = ident(k)
-                    if o is None or o in sess.deleted:
-                        outs.append("-")
-                        continue
-                    sess.delete(o)
-                    flushed.pop(k, None)
-                    outs.append("d")
-                elif kind in ("q", "cnt", "core"):
-                    m, q = op[1], op[2]
-                    stmt = build_stmt(w, kind, q)
-                    if m == "opt":
-                        stmt = stmt.execution_options(autoflush=False)
-                    with reading(m):
-                        res = sess.execute(stmt)
-                        if kind == "q":
-                            objs = res.scalars().all()
-                            keep.extend(objs)
-                            got = [(o.id, o.a) for o in objs]
-                            outs.append("[" + " ".join("%d=%s" % x for x in got) + "]")
-                        elif kind == "cnt":
-                            got = res.scalar()
-                            outs.append("#%d" % got)
-                        else:
-                            got = [r[0] for r in res]
-                            outs.append("{" + " ".join(str(x) for x in got) + "}")
-                    prune()
-                    # ---- reference
-                    flushing = af and (m == "on" or (kind == "core" and m == "opt"))
-                    if flushing and not twin:
-                        if poisoned[0]:
-                            problems.append(("duplicate-insert-not-detected", "op %s" % (op,)))
-                        t, ids = eval_ref(flushed, q)
-                        exp = [(i, flushed[(t, i)][0]) for i in ids] if kind == "q" else (len(ids) if kind == "cnt" else ids)
-                        if got != exp:
-                            problems.append(("query-misses-pending-change", "%s returned %s, pending state says %s" % (op, got, exp)))
-                elif kind == "get":
-                    m, k = op[1], (op[2], op[3])
-                    present = ident(k) is not None
-                    with reading(m, present):
-                        kw = {"execution_options": {"autoflush": False}} if m == "opt" else {}
-                        o = sess.get(w.cls[k[0]], k[1], **kw)
-                    if o is None:
-                        outs.append("None")
-                    else:
+    try:
+        with warnings.catch_warnings():
+            warnings.simplefilter("ignore")
+            for op in ops:
+                kind = op[0]
+                try:
+                    if kind == "add":
+                        k = (op[1], op[2])
+                        if ident(k) is not None or k in pend:
+                            outs.append("-")
+                            continue
+                        T = w.cls[k[0]]
+                        o = T(id=k[1], a=op[3]) if k[0] == 0 else T(id=k[1], a=op[3], pid=op[4])
+                        sess.add(o)
                         keep.append(o)
-                        outs.append("o%s%s" % (o.a, "!" if o in sess.deleted else ""))
-                    prune()
-                    if af and m == "on" and not present and not twin:
-                        exp = flushed.get(k)
-                        if (o is None) != (exp is None) or (o is not None and o.a != exp[0]):
-                            problems.append(("get-misses-pending-change", "get%s -> %s, pending state says %s" % (k, outs[-1], exp)))
-                elif kind == "kids":
-                    m, p = op[1], op[2]
-                    par = ident((0, p))
-                    if par is None or par in sess.deleted:
-                        outs.append("-")
-                        continue
-                    with reading(m):
-                        sess.expire(par, ["children"])
-                        kids = list(par.children)
-                    keep.extend(kids)
-                    got = [(c.id, c.a) for c in kids]
-                    outs.append("[" + " ".join("%d=%s" % x for x in got) + "]")
-                    prune()
-                    if af and m == "on" and not twin:
-                        _, ids = eval_ref(flushed, ("pid", p))
-                        exp = [(i, flushed[(1, i)][0]) for i in ids]
-                        if got != exp:
-                            problems.append(("lazyload-misses-pending-change", "children(%d) -> %s, pending state says %s" % (p, got, exp)))
-                elif kind == "flush":
-                    sess.flush()
-                    prune()
-                    outs.append("d")
-                elif kind == "commit":
-                    sess.commit()
-                    prune()
-                    committed.clear()
-                    committed.update({k: list(v) for k, v in flushed.items()})
-                    outs.append("d")
-                else:
-                    raise ValueError(op)
-            except IntegrityError:
-                sess.rollback()
-                if not poisoned[0] and not twin:
-                    problems.append(("unjustified-integrity-error", "op %s" % (op,)))
-                on_rollback()
-                outs.append("integrity")
-                break  # every object is expired now: the history ends here (expiry is C46's subject)
-    sess.close()
+                        pend[k] = o
+                        if k in flushed:
+                            poisoned[0] = True
+                        else:
+                            flushed[k] = [op[3], op[4] if k[0] == 1 else None]
+                        outs.append("d")
+                    elif kind in ("seta", "setp"):
+                        k = (op[1], op[2])
+                        if kind == "setp" and k[0] != 1:
+                            outs.append("-")
+                            continue
+                        o = ident(k)
+                        if o is not None and o in sess.deleted:
+                            outs.append("-")
+                            continue
+                        if o is None:
+                            o = pend.get(k)
+                        if o is None:
+                            outs.append("-")
+                            continue
+                        if kind == "seta":
+                            o.a = op[3]
+                            if not (poisoned[0] and k in pend):
+                                flushed[k][0] = op[3]
+                        else:
+                            o.pid = op[3]
+                            if not (poisoned[0] and k in pend):
+                                flushed[k][1] = op[3]
+                        outs.append("d")
+                    elif kind == "del":
+                        k = (op[1], op[2])
+                        o = ident(k)
+                        if o is None or o in sess.deleted:
+                            outs.append("-")
+                            continue
+                        sess.delete(o)
+                        flushed.pop(k, None)
+                        outs.append("d")
+                    elif kind in ("q", "cnt", "core"):
+                        m, q = op[1], op[2]
+                        stmt = build_stmt(w, kind, q)
+                        if m == "opt":
+                            stmt = stmt.execution_options(autoflush=False)
+                        with reading(m):
+                            res = sess.execute(stmt)
+                            if kind == "q":
+                                objs = res.scalars().all()
+                                keep.extend(objs)
+                                got = [(o.id, o.a) for o in objs]
+                                outs.append("[" + " ".join("%d=%s" % x for x in got) + "]")
+                            elif kind == "cnt":
+                                got = res.scalar()
+                                outs.append("#%d" % got)
+                            else:
+                                got = [r[0] for r in res]
+                                outs.append("{" + " ".join(str(x) for x in got) + "}")
+                        prune()
+                        # ---- reference
+                        flushing = af and (m == "on" or (kind == "core" and m == "opt"))
+                        if flushing and not twin:
+                            if poisoned[0]:
+                                problems.append(("duplicate-insert-not-detected", "op %s" % (op,)))
+                            t, ids = eval_ref(flushed, q)
+                            exp = [(i, flushed[(t, i)][0]) for i in ids] if kind == "q" else (len(ids) if kind == "cnt" else ids)
+                            if got != exp:
+                                problems.append(("query-misses-pending-change", "%s returned %s, pending state says %s" % (op, got, exp)))
+                    elif kind == "get":
+                        m, k = op[1], (op[2], op[3])
+                        present = ident(k) is not None
+                        with reading(m, present):
+                            kw = {"execution_options": {"autoflush": False}} if m == "opt" else {}
+                            o = sess.get(w.cls[k[0]], k[1], **kw)
+                        if o is None:
+                            outs.append("None")
+                        else:
+                            keep.append(o)
+                            outs.append("o%s%s" % (o.a, "!" if o in sess.deleted else ""))
+                        prune()
+                        if af and m == "on" and not present and not twin:
+                            exp = flushed.get(k)
+                            if (o is None) != (exp is None) or (o is not None and o.a != exp[0]):
+                                problems.append(("get-misses-pending-change", "get%s -> %s, pending state says %s" % (k, outs[-1], exp)))
+                    elif kind == "kids":
+                        m, p = op[1], op[2]
+                        par = ident((0, p))
+                        if par is None or par in sess.deleted:
+                            outs.append("-")
+                            continue
+                        with reading(m):
+                            sess.expire(par, ["children"])
+                            kids = list(par.children)
+                        keep.extend(kids)
+                        got = [(c.id, c.a) for c in kids]
+                        outs.append("[" + " ".join("%d=%s" % x for x in got) + "]")
+                        prune()
+                        if af and m == "on" and not twin:
+                            _, ids = eval_ref(flushed, ("pid", p))
+                            exp = [(i, flushed[(1, i)][0]) for i in ids]
+                            if got != exp:
+                                problems.append(("lazyload-misses-pending-change", "children(%d) -> %s, pending state says %s" % (p, got, exp)))
+                    elif kind == "flush":
+                        sess.flush()
+                        prune()
+                        outs.append("d")
+                    elif kind == "commit":
+                        sess.commit()
+                        prune()
+                        committed.clear()
+                        committed.update({k: list(v) for k, v in flushed.items()})
+                        outs.append("d")
+                    else:
+                        raise ValueError(op)
+                except IntegrityError:
+                    sess.rollback()
+                    if not poisoned[0] and not twin:
+                        problems.append(("unjustified-integrity-error", "op %s" % (op,)))
+                    on_rollback()
+                    outs.append("integrity")
+                    break  # every object is expired now: the history ends here (expiry is C46's subject)
+    finally:
+        try:
+            sess.close()
+        except Exception:
+            pass
     return outs, problems
 
 
@@ -430,7 +435,7 @@ def small_scope(length):
 
 def gen_cases(ctx, deep=False):
     thorough = ctx.tier == "thorough" or deep
-    nrand = 5000 if thorough else 900
+    nrand = 5000 if thorough else 600
     for _ in range(nrand):
         n, ops = gen_random(ctx.rng, ctx.tier)
         yield {"n": n, "af": ctx.rng.choice([1, 1, 1, 0]), "ops": ops, "src": "random"}
@@ -487,6 +492,10 @@ def run(ctx, deep=False):
         for key, detail in problems:
             ctx.violation(key, jc, detail)
         cases.append(jc)
+        if len(ctx.violations) >= 25:  # enough evidence; a broken tree can make every history slow
+            impl_out.append(line)
+            reqs.append(request(case))
+            break
         impl_out.append(line)
         reqs.append(request(case))
         if case["src"] == "random" and len(ctx.samples) < 4:
